@@ -135,3 +135,9 @@ pub const W1: &str = "id: w1\nsteps:\n  - id: s1\n    acts:\n      - uses: acts.
 pub const W2: &str = "id: w2\nsteps:\n  - id: s1\n    branches:\n      - id: b1\n        if: \"true\"\n        steps:\n          - id: s11\n            acts:\n              - uses: acts.core.irq\n                key: a1\n      - id: b2\n        if: \"true\"\n        steps:\n          - id: s21\n            acts:\n              - uses: acts.core.irq\n                key: a2\n  - id: s2\n";
 pub const W3: &str = "id: w3\nsteps:\n  - id: s1\n    catches:\n      - on: e1\n        steps:\n          - id: cs\n            acts:\n              - uses: acts.core.irq\n                key: c1\n    acts:\n      - uses: acts.core.irq\n        key: a1\n        catches:\n          - on: e2\n            steps:\n              - id: ca\n                acts:\n                  - uses: acts.core.msg\n                    key: m1\n      - uses: acts.core.irq\n        key: a2\n  - id: s2\n";
 pub const W4: &str = "id: w4\nsteps:\n  - id: s1\n    acts:\n      - uses: acts.core.parallel\n        key: gen\n        params:\n          in: [\"u1\", \"u2\"]\n          acts:\n            - uses: acts.core.irq\n              key: k\n  - id: s2\n";
+
+/// a step with two coded catches (e1, e2: the handler of the first can raise the second) around an act
+/// with two coded catches of its own (e3 with a handler, e4 without steps)
+pub const W3B: &str = "id: w3b\nsteps:\n  - id: s1\n    catches:\n      - on: e1\n        steps:\n          - id: cs1\n            acts:\n              - uses: acts.core.irq\n                key: c1\n      - on: e2\n        steps:\n          - id: cs2\n            acts:\n              - uses: acts.core.irq\n                key: c2\n    acts:\n      - uses: acts.core.irq\n        key: a1\n        catches:\n          - on: e3\n            steps:\n              - id: ca3\n                acts:\n                  - uses: acts.core.irq\n                    key: d3\n          - on: e4\n  - id: s2\n";
+/// real sibling acts: a parallel block with two interrupts, then a further act in the step
+pub const W6: &str = "id: w6\nsteps:\n  - id: s1\n    acts:\n      - uses: acts.core.block\n        key: blk\n        params:\n          mode: parallel\n          acts:\n            - uses: acts.core.irq\n              key: x\n            - uses: acts.core.irq\n              key: y\n      - uses: acts.core.irq\n        key: z\n  - id: s2\n";
